@@ -259,10 +259,19 @@ def eval_user_prop(case):
             iab, iba, ibc, iac = [float(np.ravel(np.asarray(v, dtype=float))[0]) for v in (iab, iba, ibc, iac)]
             fa, fb = ref_value(spec, a), ref_value(spec, b)
             scale = max(abs(fa), abs(fb), 1e-300) * max(abs(b - a), abs(c - a), abs(c - b), 1e-300)
+            # an integral is a difference of antiderivative values F(b) - F(a); for limits that (almost) coincide it is pure
+            # cancellation, with absolute round-off eps * |F|. |F| is bounded through the terms of the antiderivative.
+            X = max(abs(a), abs(b), abs(c), 1.0)
+            if spec["class"] == "polynominal":
+                co = np.polyfit(spec["x"], spec["y"], spec["degree"])
+                fterm = float(sum(abs(ck) * X ** (len(co) - i) for i, ck in enumerate(co)))
+            else:
+                fterm = max(abs(fa), abs(fb), abs(ref_value(spec, c))) * X
+            cancel = 1e-14 * fterm
             if not abs(iab + iba) <= 1e-9 * scale:
                 f.append(Finding("integral", "C19.integral.antisymmetry.%s" % spec["class"],
                                  {"a": a, "b": b, "I(a,b)": iab, "I(b,a)": iba}))
-            if seg_ok and not abs(iab + ibc - iac) <= 1e-7 * scale + 1e-300:
+            if seg_ok and not abs(iab + ibc - iac) <= 1e-7 * scale + cancel + 1e-300:
                 f.append(Finding("integral", "C19.integral.additivity.%s" % spec["class"],
                                  {"a": a, "b": b, "c": c, "I(a,b)": iab, "I(b,c)": ibc, "I(a,c)": iac}))
             lo, hi = min(a, b), max(a, b)
@@ -270,7 +279,7 @@ def eval_user_prop(case):
             fv = [ref_value(spec, g) for g in grid]
             fmin, fmax = min(fv), max(fv)
             ilh = iab if b >= a else iba   # integral from lo to hi
-            tolb = 1e-7 * scale
+            tolb = 1e-7 * scale + cancel
             if not (fmin * (hi - lo) - tolb <= ilh <= fmax * (hi - lo) + tolb):
                 f.append(Finding("integral", "C19.integral.bounds.%s" % spec["class"],
                                  {"lo": lo, "hi": hi, "I": ilh, "fmin": fmin, "fmax": fmax}))
@@ -470,7 +479,27 @@ def eval_pipe_type_history(case):
             kw["k_mm"] = op["k_mm"]
         if op.get("u_w_per_m2k") is not None:
             kw["u_w_per_m2k"] = op["u_w_per_m2k"]
-        if op["call"] == "single":
+        if op["call"] == "foreign_edit":
+            # another net of the same process: the user changes ITS copy of the type in place; the first net, and nets
+            # created later, must keep the library values
+            other = pp.create_empty_network(fluid=case.get("fluid", "water"))
+            t_other = load_std_type(other, name, "pipe")
+            t_other["inner_diameter_mm"] = 1.0
+            t_other["k_mm"] = 99.0
+            for pt in other.std_types.get("pump", {}).values():
+                if hasattr(pt, "reg_par") and isinstance(pt.reg_par, np.ndarray):
+                    pt.reg_par *= 0.5
+            labels.add("type_edited_in_another_net")
+            third = pp.create_empty_network(fluid=case.get("fluid", "water"))
+            j3 = pp.create_junctions(third, 2, 5, 300)
+            r3 = third.pipe.loc[pp.create_pipe(third, j3[0], j3[1], name, 0.1)]
+            for k_, v_ in lib[name].items():
+                g_ = float(r3[k_])
+                if not ((math.isnan(g_) and math.isnan(v_)) or close(g_, v_, 1e-12)):
+                    f.append(Finding("pipe_types", "C19.pipe_type_history.new_net_after_foreign_edit." + k_,
+                                     {"type": name, "step": step, "got": g_, "library_file": v_}))
+            idx = []
+        elif op["call"] == "single":
             idx = [pp.create_pipe(net, j[0], j[1], name, 0.1, **kw)]
         elif op["call"] == "bulk":
             idx = list(pp.create_pipes(net, [j[0], j[1]], [j[1], j[2]], name, 0.1, **kw))
@@ -546,7 +575,7 @@ def gen_case(draw):
         ops = []
         for _ in range(draw(st.integers(2, 6))):
             ov = draw(st.sampled_from(["none", "none", "k", "u", "ku"]))
-            ops.append({"type": draw(st.sampled_from(pool)), "call": draw(st.sampled_from(["single", "single", "bulk", "load_only"])),
+            ops.append({"type": draw(st.sampled_from(pool)), "call": draw(st.sampled_from(["single", "single", "bulk", "load_only", "foreign_edit"])),
                         "k_mm": draw(st.sampled_from([0.01, 0.7, 3.0])) if "k" in ov else None,
                         "u_w_per_m2k": draw(st.sampled_from([0.5, 7.0, 30.0])) if "u" in ov else None})
         return {"kind": kind, "fluid": draw(st.sampled_from(["water", "lgas"])), "ops": ops}
